@@ -120,6 +120,8 @@ impl Property for C13 {
         // one corrupted read (a bit flipped in transit, the stored object intact) of the j-th object the
         // compaction reads: an input segment that cannot be validated must stay where it is
         let compact_corrupt_read: Option<u64> = if src.chance(1, 6) { Some(1 + src.below(5)) } else { None };
+        // the compaction's manifest swap takes effect but reports an error (copy-then-delete rename)
+        let compact_rename_ambiguous = src.chance(1, 8);
         let trace = ctx.trace;
         if trace {
             for e in &stream { rep.trace.push(format!("t+{}ms {} -> {} @({},{})", e.wall_ms - t0, e.op, e.delta.value.crdt_type(), e.delta.value.timestamp.time, e.delta.value.timestamp.replica_id.0)); }
@@ -168,6 +170,7 @@ impl Property for C13 {
             if !concurrent {
                 let st_c = st.as_actor(1);
                 if let Some(j) = compact_corrupt_read { st.set_who_plan([((1u32, j), crate::simkit::store::StoreFault::GetCorrupt)].into_iter().collect()); }
+                if compact_rename_ambiguous { st.inner.lock().unwrap().next_rename_fault.insert(1, crate::simkit::store::StoreFault::RenameAmbiguous); }
                 let mut compactor = Compactor::with_time_source(Arc::new(st_c.clone()), PREFIX.to_string(), ManifestManager::new(st_c.clone(), PREFIX), ccfg, clock.clone());
                 for _ in 0..n_compactions {
                     match compactor.compact().await { Ok(r) => { compact_ok.push(true); removed.extend(r.segments_removed.iter().map(|s| s.id)); } Err(_) => compact_ok.push(false) }
@@ -187,6 +190,7 @@ impl Property for C13 {
                     }
                     if let Some(j) = compact_corrupt_read { plan.insert((1u32, j), crate::simkit::store::StoreFault::GetCorrupt); }
                     if !plan.is_empty() { st.set_who_plan(plan); }
+                    if compact_rename_ambiguous { st.inner.lock().unwrap().next_rename_fault.insert(1, crate::simkit::store::StoreFault::RenameAmbiguous); }
                 }
                 st.set_yield(true);
                 let ops0 = st.ops();
@@ -228,7 +232,7 @@ impl Property for C13 {
             rep.trace.push(format!("compact results {:?}, flush result {:?}, segments removed {:?}", out.compact_ok, out.flush_ok, out.removed));
         }
         let _ = OpKind::Put;
-        for e in store.inner.lock().unwrap().events.iter() { if let Some(f) = e.fault { rep.fault(f.name()); rep.probe(if e.who == 2 { "flush_reload_failed_transiently" } else { "compaction_read_corrupted" }); } }
+        for e in store.inner.lock().unwrap().events.iter() { if let Some(f) = e.fault { rep.fault(f.name()); rep.probe(if e.who == 2 { "flush_reload_failed_transiently" } else if matches!(f, crate::simkit::store::StoreFault::RenameAmbiguous) { "compaction_manifest_swap_ambiguous" } else { "compaction_read_corrupted" }); } }
         if out.setup.is_some() { rep.evals = 1; return rep; }
         let before = match out.before { Ok(b) => b, Err(e) => { rep.violate("C13/recover-before-failed", e); return rep; } };
         // the recorded race needs the two operations to be in progress at the same time: their spans of store
